@@ -41,7 +41,7 @@ impl AtomicOp for Op {
 
     fn dgr(self) -> AtomicOpDispatch {
         AtomicOpDispatch::RX(Self {
-            phase: -self.phase,
+            phase: self.phase.conj(),
             ..self
         })
     }
